@@ -4,6 +4,7 @@ package main
 
 import (
 	"fmt"
+	"go/token"
 	"strings"
 
 	"golang.org/x/tools/go/ssa"
@@ -115,6 +116,30 @@ func c18(p *Prog, r *Report) {
 							okN = sameObject(st.Val, nDst)
 						case "E":
 							okE = sameObject(st.Val, eDst)
+						}
+					}
+				}
+				// or: the integers are read straight into the fields of the key returned
+				if !okN || !okE {
+					keyOf := func(v ssa.Value, field string) ssa.Value {
+						if mi, ok := v.(*ssa.MakeInterface); ok {
+							v = mi.X
+						}
+						if ld, ok := v.(*ssa.UnOp); ok && ld.Op == token.MUL {
+							v = ld.X
+						}
+						fa, ok := v.(*ssa.FieldAddr)
+						if !ok || typeShort(deref(fa.X.Type())) != "crypto/rsa.PublicKey" || fieldName(fa.X.Type(), fa.Field) != field {
+							return nil
+						}
+						return fa.X
+					}
+					kn, ke := keyOf(nDst, "N"), keyOf(eDst, "E")
+					if kn != nil && kn == ke {
+						for _, rp2 := range s.ff.RetPoints(verdictIndex(fn)) {
+							if rp2.Outcome != Fails && len(rp2.Vals) > 0 && rp2.Vals[0] == kn {
+								okN, okE = true, true
+							}
 						}
 					}
 				}
